@@ -603,6 +603,13 @@ udp_recv_disc(udp_ep *ep, udp_sp_msg *disc, const nng_sockaddr *sa)
 
 	p = udp_find_pipe(ep, sa);
 	if (p != NULL) {
+		// A dialer still waiting for this peer to accept has been
+		// refused; tell it, so that it can try again later.
+		if ((ep->dialer) && (p->peer_id == 0) &&
+		    ((aio = nni_list_first(&ep->connaios)) != NULL)) {
+			nni_aio_list_remove(aio);
+			nni_aio_finish_error(aio, NNG_ECONNREFUSED);
+		}
 		p->closed = true;
 		while ((aio = nni_list_first(&p->rx_aios)) != NULL) {
 			nni_aio_list_remove(aio);
